@@ -50,11 +50,21 @@ class ExtractError(Exception):
     pass
 
 
+class ExtractPanic(ExtractError):
+    """the real synthesis / witness generation panicked inside the repository's code"""
+    pass
+
+
 def extract(family, op, params, ins, k=10, P=csmt.P_BLS):
     build()
     p = subprocess.run([CX] + cx_args(family, op, params, ins, k), capture_output=True, text=True)
     if p.returncode != 0:
-        raise ExtractError(f"cx failed for {family}/{op} {params} in={ins}: {p.stderr[-1500:]}")
+        err = p.stderr[-1500:]
+        import re as _re
+        m_ = _re.search(r"panicked at ([^\s:]+):(\d+)", p.stderr)
+        if m_ and os.path.abspath(m_.group(1)).startswith(os.path.abspath(core.REPO) + "/"):
+            raise ExtractPanic(f"{family}/{op} {params} in={ins}: {p.stderr[p.stderr.find('panicked at'):][:400]}")
+        raise ExtractError(f"cx failed for {family}/{op} {params} in={ins}: {err}")
     return csmt.System(json.loads(p.stdout), P)
 
 
@@ -90,7 +100,7 @@ def overrides_from_model(system, enc, model):
 
 
 def decide(run, ob, family, op, params, ins, spec, k=10, timeout=60, drop=(), monomial_mode=False, P=csmt.P_BLS,
-           variants=()):
+           variants=(), ff=False):
     """Decide `forall assignment. Sys => Spec` for one extracted operation.
 
     spec(e, I, O) -> SMT Bool string. I, O: atoms (smt names or python ints) of the input / output
@@ -103,6 +113,10 @@ def decide(run, ob, family, op, params, ins, spec, k=10, timeout=60, drop=(), mo
     ob.functions = ob.functions or [f"{family}::{op}"]
     try:
         system = extract(family, op, params, ins, k, P)
+    except ExtractPanic as ex:
+        ob.key = ob.key + ":honest-panics"
+        path = run.write_replay(ob, dict(kind="honest-panics", cx=cx_args(family, op, params, ins, k)))
+        return ob.set(VIOLATION, f"the real synthesis/witness generation panics on admissible inputs: {ex}", replay=path)
     except ExtractError as ex:
         return ob.set(INCONCLUSIVE, f"extraction failed: {ex}")
     d = system.d
@@ -120,8 +134,27 @@ def decide(run, ob, family, op, params, ins, spec, k=10, timeout=60, drop=(), mo
         path = run.write_replay(ob, dict(kind="honest-rejected", cx=cx_args(family, op, params, ins, k)))
         return ob.set(VIOLATION, f"real MockProver rejects the honest witness of {op} {params} on admissible inputs {ins}", replay=path)
     e = csmt.Enc(system, drop=drop)
+    chain_note = ""
     try:
+        if ff:
+            from . import ffchain
+            groups = ffchain.group_ff_gates(d["gates"])
+            gkeys = set(groups)
+            e.skip_gate = lambda g: (g["gate"].rsplit(":", 1)[0], g["row"]) in gkeys
+            e.opaque_products = True
+            e.extra = d.get("extra", {})
         e.encode(monomial_mode)
+        if ff:
+            try:
+                recs = ffchain.run_chain(e, ob, d["extra"], timeout=timeout)
+                ob.sample_chain = recs[:8]
+                e.chain_records = recs
+            except ffchain.ChainFail as cf:
+                # the chained argument does not go through: fall back to the raw modular rows and look
+                # for a forged assignment directly (a sat answer is replayed; anything else is inconclusive)
+                chain_note = f"foreign-field chain failed: {cf}"
+                for g in e.skipped:
+                    e.constraint(g["poly"], True)
         Iat = [e.v(c) for c in system.ins]
         Oat = [e.v(c) for c in system.outs]
         spec_smt = spec(e, Iat, Oat)
@@ -151,7 +184,9 @@ def decide(run, ob, family, op, params, ins, spec, k=10, timeout=60, drop=(), mo
     ob.sample = dict(op=op, params={k_: str(v)[:40] for k_, v in params.items()}, vars=len(names),
                      gates=len(d["gates"]), lookups=sum(len(l["inputs"]) for l in d["lookups"]))
     # ---- vacuity / encoder validation twin: the honest assignment satisfies the encoded system ----
-    pins = [f"(assert (= {n} {honest[c]}))" for c, n in e.vars.items() if c in honest]
+    hon_assign = {n: honest.get(c, 0) for c, n in e.vars.items()}
+    hon_exact = e.exact_atoms(hon_assign)
+    pins = [f"(assert (= {n} {v}))" for n, v in hon_exact.items()]
     r = solvers.solve(e.text(pins + [f"(assert {spec_smt})"]), timeout=timeout)
     ob.queries += 1
     ob.solver_s += r.time_s
@@ -173,9 +208,11 @@ def decide(run, ob, family, op, params, ins, spec, k=10, timeout=60, drop=(), mo
                 # everything outside the listed known-finding classes holds
                 ob.key = f"{base_key}:{known_hits[0]}"
                 return ob.set(core.KNOWN, f"only the listed known finding(s) {known_hits} violate the specification; all other assignments hold", solver=r.solver, replay=known_replay)
+            if chain_note:
+                return ob.set(INCONCLUSIVE, chain_note + " (and no forged assignment was found)")
             return ob.set(HOLDS, solver=r.solver)
         if r.status != "sat":
-            return ob.set(INCONCLUSIVE, f"solver: {r.status} {r.raw[:200]} {r.per_solver}")
+            return ob.set(INCONCLUSIVE, f"solver: {r.status} {r.raw[:200]} {r.per_solver} {chain_note}")
         model = r.model
         assign = {n: model.get(n, 0) % P for n in names}
         cls_assign = {c: assign[n] for c, n in e.vars.items()}
@@ -184,6 +221,7 @@ def decide(run, ob, family, op, params, ins, spec, k=10, timeout=60, drop=(), mo
         exact = e.exact_atoms(assign)
         bad = system.check_exact(cls_assign)
         wrong = [it for it in e.order if it[0] == "mul" and model.get(it[1]) is not None and model[it[1]] != exact[it[1]]]
+        wrong_mm = [it for it in e.order if it[0] == "mm" and not isinstance(it[3], int) and model.get(it[1]) is not None and model[it[1]] != exact[it[1]]]
         if not bad:
             # all real constraints hold exactly: is the spec really violated? ground re-check by the solver
             pins = [f"(assert (= {n} {v}))" for n, v in exact.items()]
@@ -266,7 +304,7 @@ def run_family(run, family, entries, timeout=60, workers=8, only=None, engine="C
             return
         try:
             decide(run, ob, family, ent["op"], ent["params"], ent["ins"], ent["spec"], k=ent["k"], timeout=timeout,
-                   monomial_mode=ent.get("monomial", False), variants=ent.get("variants", ()))
+                   monomial_mode=ent.get("monomial", False), variants=ent.get("variants", ()), ff=ent.get("ff", False))
         except Exception as ex:  # noqa
             import traceback
             ob.set(INCONCLUSIVE, f"engine error: {ex!r} {traceback.format_exc()[-400:]}")
@@ -285,6 +323,10 @@ def run_family(run, family, entries, timeout=60, workers=8, only=None, engine="C
                         ob.set(INCONCLUSIVE, f"emitted structure depends on the input ({alt}): the per-shape claim does not transfer")
                         break
                     ob.queries += 0
+            except ExtractPanic as ex:
+                ob.key = ob.key + ":honest-panics"
+                path = run.write_replay(ob, dict(kind="honest-panics", cx=cx_args(family, ent["op"], ent["params"], alt, ent["k"])))
+                ob.set(VIOLATION, f"the real synthesis/witness generation panics on admissible inputs: {ex}", replay=path)
             except ExtractError as ex:
                 ob.set(INCONCLUSIVE, f"alt input extraction failed: {ex}")
         run.log(f"{ob.status:12s} {oid} {ob.solver or ''} {ob.solver_s:.1f}s {ob.detail[:160]}")
